@@ -497,6 +497,14 @@ def streams(ctx):
         for cg in cl:
             yield 'molecule-map-grid', f'{mm("C", cr)}C{mm("N", cg)}O{mm("C", cr)}'
             yield 'molecule-map-grid', f'C{mm("C", cr)}.{mm("N", cg)}C'
+    # CXSMILES radicals on every atom position of molecules and of reactions with atoms in all three roles
+    for base_s, n_at in (('CC>O>CC', 5), ('C>CO>C.CC', 6), ('>CO>CC', 4), ('CC>>N', 3), ('CCO', 3), ('C.CN', 3), ('C[CH2]>[OH]>C[CH2]', 5)):
+        for i in range(n_at + 1):
+            yield 'radical-grid', f'{base_s} |^1:{i}|'
+            for j in range(i + 1, n_at):
+                if rng.random() < (0.5 if quick else 1.0):
+                    yield 'radical-grid', f'{base_s} |^1:{i},{j}|'
+                    yield 'radical-grid', f'{base_s} |^1:{j},^2:{i}|'
     # exhaustive short strings
     n_full = 3 if quick else 4
     for s in all_strings(ALPHA_FULL, n_full):
@@ -753,8 +761,11 @@ def ref_read(text):
     else:
         gs = R.parse(smi)
         n = len(gs.atoms)
-    if len(set(rad)) == len(rad) and any(x >= n for x in rad):
+    if len(set(rad)) != len(rad):
+        rad = []                         # repeated index: the whole radical block is ignored (documented)
+    if any(x >= n for x in rad):
         raise R.Reject('radical index beyond the last atom')
+    ref_read.radicals = set(rad)         # atom positions in text order (reactants, reagents, products)
     return ('rxn' if '>' in smi else 'mol'), gs
 
 
@@ -892,6 +903,19 @@ def oracle(s, stereo=True):
         for k, c in enumerate(classes):
             if c and ((not is_rxn and classes.index(c) == k) or (is_rxn and allcls.count(c) == 1)) and nums[k] != c:
                 return 'C03/wrong-graph/atom-number', f'smiles({s!r}): atom {k} of {"a role" if is_rxn else "the molecule"} has class {c} but number {nums[k]}'
+    # CXSMILES radicals, per role and per atom in text order: an atom named in the ^n: block is a radical; an atom written
+    # without brackets (hydrogens computed, never guessed to be a radical) is a radical only if it is named there
+    if not contracted:
+        want = getattr(ref_read, 'radicals', set())
+        k = 0
+        for mols, g in roles:
+            flags = [bool(a.is_radical) for m in mols for a in m._atoms.values()]
+            for a, f in zip(g.atoms if g else [], flags):
+                if k in want and not f:
+                    return 'C03/wrong-graph/radical', f'smiles({s!r}) = {obj}: atom {k} of the text is named in the radical block but is not a radical'
+                if k not in want and f and not a.bracket:
+                    return 'C03/wrong-graph/radical', f'smiles({s!r}) = {obj}: atom {k} of the text is not named in the radical block but was made a radical'
+                k += 1
     # RDKit as a second, fully independent reader (molecules without CXSMILES only)
     if not is_rxn and len(words) == 1 and '~' not in s:
         rv = rdkit_view(s)
